@@ -191,7 +191,7 @@ SPEC = r"""
         // "columns count characters": the error of a slot is reported on the literal's line, at the literal's column plus the
         // CHARACTER offset of the slot in the decoded text (plus the four delimiter characters `$"` and `${`)
         r matches Err(e) ==> (e matches Error::AtLoc{line: l, col: c, ..} && l == *loc.0
-            && (exists|k: int| 0 <= k < interpolation_slots@.len() && c == *loc.1 + (#[trigger] interpolation_slots@[k]).0 + 4)), // [C17_C18:an_error_inside_a_slot_is_reported_at_the_slots_character_offset_in_the_literal]
+            && (exists|k: int| 0 <= k < interpolation_slots@.len() && c == *loc.1 + (#[trigger] interpolation_slots@[k]).0 + 4)), // [C09_C17_C18:an_error_inside_a_slot_is_reported_at_the_slots_character_offset_in_the_literal]
 """
 
 
